@@ -258,6 +258,9 @@ def check_c11(case, log, oc, labels):
     alive = []          # Inst in the kernel's actor list (no actor_end record yet)
     host_on = {}
     boot = {}           # host -> names of auto-restart actors registered there
+    boot_maybe = {}     # host -> children whose creator may not have reached set_auto_restart (its spawn has not returned)
+    pending_boot = {}   # child name -> host, until the spawn returns
+    pending_child = {}  # child name -> its first incarnation, until the spawn returns
     child_tmpl = {}     # child name -> template index
     pending_spawn = {}  # actor -> template index of the spawn being executed
     pending_rec = {}    # actor -> record of that spawn request
@@ -313,13 +316,24 @@ def check_c11(case, log, oc, labels):
                 inst.inherited = list(reversed([cb for cb, _, _, _ in first.exits]))
                 labels.add("restarted" if inst.k == 1 else "restarted-twice-or-more")
             if spec.get("auto_restart"):
-                boot.setdefault(l["host"], set()).add(name)
+                if name in spec_by_name or count[name] > 1:
+                    boot.setdefault(l["host"], set()).add(name)
+                else:
+                    # a child is marked auto-restart by its creator after the creation: certain once the spawn has returned
+                    boot_maybe.setdefault(l["host"], set()).add(name)
+                    pending_boot[name] = l["host"]
             kt = spec.get("kill_time", -1)
             if kt > inst.t_new:
                 inst.kill_times.append((inst.t_new, kt, None))
+            if name not in spec_by_name and count[name] == 1:
+                pending_child[name] = inst
+                if inst.daemon:
+                    inst.daemon = "maybe"    # a child is daemonized by its creator after the creation: certain once the spawn has returned
             cur[name] = inst
             insts.append(inst)
             alive.append(inst)
+            if name not in spec_by_name or count[name] > 1:     # (the initial actors are created before the simulation starts)
+                daemons_left(inst.t_new)
         elif k == "req":
             inst = cur.get(l["a"])
             if inst is None or inst.t_end is not None:
@@ -379,6 +393,7 @@ def check_c11(case, log, oc, labels):
                     host_on[op[2]] = True
                     rec["rebooted"] = True
                     rec["boot"] = sorted(boot.get(op[2], ()))
+                    rec["boot_maybe"] = sorted(boot_maybe.get(op[2], ()))
         elif k == "ret":
             got = reqs.get((l["a"], l["i"]))
             if got is None:
@@ -397,6 +412,15 @@ def check_c11(case, log, oc, labels):
                 daemons_left(t)
             elif o == "on_exit_add":
                 inst.added.append(rec["r"])
+            elif o == "spawn":
+                child = pending_child.pop(rec["r"], None)
+                if child is not None and child.daemon == "maybe" and child.t_end is None:
+                    child.daemon = True
+                    daemons_left(t)
+                if rec["r"] in pending_boot:
+                    h = pending_boot.pop(rec["r"])
+                    boot_maybe[h].discard(rec["r"])
+                    boot.setdefault(h, set()).add(rec["r"])
         elif k == "body_end":
             inst = cur.get(l["a"])
             if inst is not None and inst.k == 0 and inst.name in spawn_rec and spawn_rec[inst.name]["t_ret"] is None:
@@ -506,7 +530,7 @@ def check_c11(case, log, oc, labels):
                 h = rec["op"][2]
                 born = sorted(i.name for i in insts if rec["n_req"] < i.n_new and (rec["n_ret"] is None or i.n_new < rec["n_ret"]))
                 exp = rec["boot"]
-                if born != exp:
+                if not (set(exp) <= set(born) <= set(exp) | set(rec["boot_maybe"])) or len(born) != len(set(born)):
                     oc.bad("auto-restart-set-wrong", "host %s turned on at %r: actors re-created %s, auto-restart actors of that host %s" % (h, rec["t_req"], born, exp))
                 if exp:
                     labels.add("auto-restart")
